@@ -161,3 +161,131 @@ def gen_solrec(repo):
             'Definition default_tols : list (Q * Q) := [(%s, %s); (%s, %s); (%s, %s)].\n'
             % (qlit(d['ineq_tol']), qlit(d['eq_tol']), qlit(sd['ineq_tol']), qlit(sd['eq_tol']), qlit(pd['ineq_tol']), qlit(pd['eq_tol']))
             + '(* call sites pinned: %s *)\n' % '; '.join(pins))
+
+
+# ------------------------------------------------------------------ constraint_generators.py: which constraints are kept
+class SelTr:
+    """symbolic execution of the body of `for g in <list>:` in the four selection functions of constraint_generators.py.
+    Result: a Gallina expression of type sel over the names c (coefficient list), is_even, zero_at_origin."""
+    COUNTS = {'np.count_nonzero(g.c > 0)': '(count is_pos c)', 'np.count_nonzero(g.c < 0)': '(count is_neg c)',
+              'np.count_nonzero(g.c)': '(count (fun q => negb (qiszero q)) c)',
+              'np.count_nonzero(g.c != 0)': '(count (fun q => negb (qiszero q)) c)'}
+    KEEP = {'conv_gs.append(g * inverse_term)', 'conv_eqs.append(g * inverse_term)', 'gp_rep_polys.append(g)'}
+    INVERSE = 'Signomial.from_dict({tuple(-g.alpha[pos_loc, :]): 1})'
+
+    def __init__(self, fn):
+        self.fn = fn
+        self.uses = set()
+
+    def nat(self, e, env):
+        t = ast.unparse(e)
+        if t in self.COUNTS:
+            return self.COUNTS[t]
+        if isinstance(e, ast.Name) and env.get(e.id, ('?',))[0] == 'nat':
+            return env[e.id][1]
+        if isinstance(e, ast.Attribute) and e.attr == 'size' and isinstance(e.value, ast.Name) and env.get(e.value.id, ('?',))[0] == 'posarray':
+            return '(count is_pos c)'
+        if isinstance(e, ast.Constant) and isinstance(e.value, int) and not isinstance(e.value, bool) and e.value >= 0:
+            return '%d' % e.value
+        raise TranslationError('%s: unsupported count expression %s' % (self.fn, t))
+
+    def cond(self, e, env):
+        t = ast.unparse(e)
+        if isinstance(e, ast.Name) and env.get(e.id, ('?',))[0] == 'bool':
+            return env[e.id][1]
+        if t == 'g(np.zeros(g.n)) == 0':
+            self.uses.add('zero_at_origin')
+            return 'zero_at_origin'
+        if t == 'len(g.even_locations()) == g.m':
+            self.uses.add('is_even')
+            return 'is_even'
+        if isinstance(e, ast.BoolOp):
+            op = ' && ' if isinstance(e.op, ast.And) else ' || '
+            return '(' + op.join(self.cond(v, env) for v in e.values) + ')'
+        if isinstance(e, ast.UnaryOp) and isinstance(e.op, ast.Not):
+            return '(negb %s)' % self.cond(e.operand, env)
+        if isinstance(e, ast.Compare) and len(e.ops) == 1:
+            a, b = self.nat(e.left, env), self.nat(e.comparators[0], env)
+            k = type(e.ops[0])
+            m = {ast.Eq: '(Nat.eqb %s %s)' % (a, b), ast.NotEq: '(negb (Nat.eqb %s %s))' % (a, b), ast.GtE: '(Nat.leb %s %s)' % (b, a),
+                 ast.Gt: '(Nat.ltb %s %s)' % (b, a), ast.LtE: '(Nat.leb %s %s)' % (a, b), ast.Lt: '(Nat.ltb %s %s)' % (a, b)}
+            if k in m:
+                return m[k]
+        raise TranslationError('%s: unsupported test %s' % (self.fn, t))
+
+    def run(self, stmts, env):
+        if not stmts:
+            return 'SelSkip'
+        s, rest = stmts[0], stmts[1:]
+        if isinstance(s, ast.Expr) and isinstance(s.value, ast.Constant):
+            return self.run(rest, env)
+        if isinstance(s, ast.Continue):
+            return 'SelSkip'
+        if isinstance(s, ast.Raise):
+            if 'RuntimeError' not in ast.unparse(s):
+                raise TranslationError('%s: raises something else than RuntimeError' % self.fn)
+            return 'SelRaise'
+        if isinstance(s, ast.Expr) and isinstance(s.value, ast.Call):
+            t = ast.unparse(s.value)
+            if t in self.KEEP:
+                if 'inverse_term' in t and env.get('inverse_term') != ('inverse', 'ok'):
+                    raise TranslationError('%s: inverse_term is not the inverse of the positive monomial' % self.fn)
+                if self.run(rest, env) != 'SelSkip':
+                    raise TranslationError('%s: statements after the append change the outcome' % self.fn)
+                return 'SelKeep'
+            if t.startswith('warnings.warn('):
+                return self.run(rest, env)
+            raise TranslationError('%s: unsupported call statement %s' % (self.fn, t[:60]))
+        if isinstance(s, ast.Assign) and len(s.targets) == 1 and isinstance(s.targets[0], ast.Name):
+            name, t = s.targets[0].id, ast.unparse(s.value)
+            env2 = dict(env)
+            if t in self.COUNTS:
+                env2[name] = ('nat', self.COUNTS[t])
+                return self.run(rest, env2)
+            if t == 'len(g.even_locations()) == g.m':
+                self.uses.add('is_even')
+                env2[name] = ('bool', 'is_even')
+                return self.run(rest, env2)
+            if t == 'np.where(g.c > 0)[0]':
+                env2[name] = ('posarray', None)
+                return self.run(rest, env2)
+            if t == 'np.where(g.c > 0)[0][0]' or (t == '%s[0]' % name and env.get(name, ('?',))[0] == 'posarray'):
+                # the first positive location: IndexError when there is none
+                env2[name] = ('posloc', None)
+                return '(if Nat.eqb (count is_pos c) 0 then SelIndexError else %s)' % self.run(rest, env2)
+            if t == self.INVERSE and env.get('pos_loc', ('?',))[0] == 'posloc':
+                env2[name] = ('inverse', 'ok')
+                return self.run(rest, env2)
+            raise TranslationError('%s: unsupported assignment %s = %s' % (self.fn, name, t[:60]))
+        if isinstance(s, ast.If):
+            c = self.cond(s.test, env)
+            return '(if %s then %s else %s)' % (c, self.run(list(s.body) + rest, env), self.run(list(s.orelse) + rest, env))
+        raise TranslationError('%s: unsupported statement %s' % (self.fn, ast.unparse(s)[:60]))
+
+
+def _loop_body(tree, fn, listname, resname):
+    f = _find_toplevel_func(tree, fn)
+    body = [s for s in f.body if not (isinstance(s, ast.Expr) and isinstance(s.value, ast.Constant))]
+    if [a.arg for a in f.args.args] != [listname]:
+        raise TranslationError('%s: signature changed' % fn)
+    if len(body) != 3 or ast.unparse(body[0]) != '%s = []' % resname or ast.unparse(body[2]) != 'return %s' % resname \
+            or not isinstance(body[1], ast.For) or ast.unparse(body[1].target) != 'g' or ast.unparse(body[1].iter) != listname or body[1].orelse:
+        raise TranslationError('%s: expected `%s = []`, one loop `for g in %s`, `return %s`' % (fn, resname, listname, resname))
+    return list(body[1].body)
+
+
+def gen_congen(repo):
+    tree = ast.parse(_src(repo, 'sageopt/relaxations/constraint_generators.py'))
+    out = []
+    for fn, listname, resname, gname, params in (
+            ('valid_posynomial_inequalities', 'gs', 'conv_gs', 'gen_posy_sel', '(c : list Q)'),
+            ('valid_monomial_equations', 'eqs', 'conv_eqs', 'gen_monoeq_sel', '(c : list Q)'),
+            ('valid_gp_representable_poly_inequalities', 'gs', 'gp_rep_polys', 'gen_polyineq_sel', '(is_even zero_at_origin : bool) (c : list Q)'),
+            ('valid_gp_representable_poly_eqs', 'eqs', 'gp_rep_polys', 'gen_polyeq_sel', '(is_even : bool) (c : list Q)')):
+        tr = SelTr(fn)
+        expr = tr.run(_loop_body(tree, fn, listname, resname), {})
+        out.append('(* %s: what happens to one constraint g, by its coefficient vector c = g.c *)\nDefinition %s %s : sel :=\n  %s.\n'
+                   % (fn, gname, params, expr))
+    return ('(* GENERATED by harness/translator/funcs.py from sageopt/relaxations/constraint_generators.py *)\n'
+            'From Coq Require Import List Bool Arith QArith.\nFrom SageVerif Require Import Model.Signomial Model.ConGen.\nImport ListNotations.\n'
+            'Inductive sel := SelKeep | SelSkip | SelRaise | SelIndexError.\n' + ''.join(out))
